@@ -846,6 +846,54 @@ func init() {
 						}
 					}
 				}
+				// base64 text as mail / PEM tools re-spell it (wrapped lines, a final newline, blanks): the byte-slice reader and the
+				// stream reader of a format say the same of the same text - both refuse it, or both return the tokens that were added
+				{
+					set := []sealedTok{many[0], many[1], many[2]}
+					wrap := func(t []byte, col int, nl string) []byte {
+						var out []byte
+						for i := 0; i < len(t); i += col {
+							j := i + col
+							if j > len(t) {
+								j = len(t)
+							}
+							out = append(append(out, t[i:j]...), nl...)
+						}
+						return out
+					}
+					for _, f := range []string{"car", "cbor"} {
+						data, err := writeContainer(set, []int{1, 2, 3}, f, true, "bytes")
+						if err != nil {
+							return err
+						}
+						texts := map[string][]byte{
+							"as written": data, "final newline": append(append([]byte{}, data...), '\n'), "final CRLF": append(append([]byte{}, data...), '\r', '\n'),
+							"wrapped at 64": wrap(data, 64, "\n"), "wrapped at 76, CRLF": wrap(data, 76, "\r\n"), "wrapped at 4": wrap(data, 4, "\n"), "wrapped at 1": wrap(data, 1, "\n"),
+							"leading newline": append([]byte{'\n'}, data...), "blank inside": append(append(append([]byte{}, data[:8]...), ' '), data[8:]...),
+							"final blank": append(append([]byte{}, data...), ' '), "two final newlines": append(append([]byte{}, data...), '\n', '\n'),
+							"padding cut": bytes.TrimRight(data, "="), "newline before the padding": append(append(append([]byte{}, bytes.TrimRight(data, "=")...), '\n'), data[len(bytes.TrimRight(data, "=")):]...),
+						}
+						for name, text := range texts {
+							rep.Evaluations++
+							cs := map[string]any{"fmt": f, "b64": true, "text": name, "bytes": len(text)}
+							m, merr := readContainer(text, f, true, "bytes", nil)
+							st, serr := readContainer(text, f, true, "stream", nil)
+							if (merr == nil) != (serr == nil) {
+								rep.violation(cs, fmt.Sprint("stream: ", serr), fmt.Sprint("memory: ", merr), "the byte-slice and the stream reader disagree on the same base64 text")
+								continue
+							}
+							if merr != nil {
+								continue
+							}
+							rep.nontrivial("b64text/" + f + "/" + name)
+							if why := sameSet(m, set); why != "" {
+								rep.violation(cs, "exactly the tokens that were added", why, "base64 text accepted by the byte-slice reader, other tokens returned")
+							} else if why := sameSet(st, set); why != "" {
+								rep.violation(cs, "exactly the tokens that were added", why, "base64 text accepted by the stream reader, other tokens returned")
+							}
+						}
+					}
+				}
 				// a valid token in a NON-canonical encoding (keys unsorted) is returned under the CID of ITS bytes - the bytes that
 				// were added - in every format; and every kind of stream (one byte at a time, data together with EOF ...) reads what
 				// the byte-slice reader reads
